@@ -108,11 +108,16 @@ pub fn bad_ack_campaign() -> SimCampaign {
 }
 
 pub fn plan(_tier: Tier) -> Plan {
+    let mut campaigns: Vec<Box<dyn DynCampaign>> = vec![Box::new(main_campaign()), Box::new(bad_ack_campaign()), Box::new(crate::fullstack::flow::Flow)];
+    // mutation analysis only (like VERIF_NO_REGRESS): measure what the E5 campaign alone finds
+    if std::env::var_os("VERIF_C09_FLOW_ONLY").is_some_and(|v| !v.is_empty()) {
+        campaigns.drain(..2);
+    }
     Plan {
-        campaigns: vec![Box::new(main_campaign()), Box::new(bad_ack_campaign())],
+        campaigns,
         enumerators: vec![],
-        rule: "Histories with 1-2 subscribers on 1-3 filters (QoS mix), publishers creating backlogs of up to 400 messages, generated ack pacing (none / 1 / 2 / bursts / all, manual PUBREC/PUBCOMP), small outgoing batch sizes forcing Unschedule/Ready with generated Ready delay. After every drain, from the client's own point of view: <=100 unacknowledged QoS>0 forwards, non-zero packet ids unique among them; at every idle point the whole backlog on all subscriptions has been delivered with no stimulus other than acks/Ready. Second campaign: one client sends unsolicited PUBACK/PUBREC/PUBCOMP; that connection must be closed and every other client's streams stay exact. Non-trivial: the window reached 100 and >=2 ack rounds were needed (main); an unsolicited ack closed a connection while forwards were flowing (second).".into(),
-        assumptions: vec!["The client-side count (forwards drained minus acks pushed) is a lower bound of the broker-side count, so exceeding 100 there is a violation; the converse is not observable from a client".into()],
+        rule: "Histories with 1-2 subscribers on 1-3 filters (QoS mix), publishers creating backlogs of up to 400 messages, generated ack pacing (none / 1 / 2 / bursts / all, manual PUBREC/PUBCOMP), small outgoing batch sizes forcing Unschedule/Ready with generated Ready delay. After every drain, from the client's own point of view: <=100 unacknowledged QoS>0 forwards, non-zero packet ids unique among them; at every idle point the whole backlog on all subscriptions has been delivered with no stimulus other than acks/Ready. Second campaign: one client sends unsolicited PUBACK/PUBREC/PUBCOMP; that connection must be closed and every other client's streams stay exact. Non-trivial: the window reached 100 and >=2 ack rounds were needed (main); an unsolicited ack closed a connection while forwards were flowing (second). Third campaign: ".to_string() + crate::fullstack::flow::FLOW_RULE,
+        assumptions: vec!["The client-side count (forwards drained minus acks pushed) is a lower bound of the broker-side count, so exceeding 100 there is a violation; the converse is not observable from a client".into(), "e5_flow: a QoS 2 publish is accepted when the broker handles its PUBREL (rumqttd appends it to the log then, MQTT allows either point), so a chunk is expected as its QoS 0/1 messages in sending order followed by its QoS 2 messages in release order".into()],
         min_nontrivial: 50,
     }
 }
